@@ -317,6 +317,10 @@ func main() {
 				"-out", of, "-budget", budget.String())
 			cmd.Dir = work
 			cmd.Env = append(env(), "GOMAXPROCS=1", "GOGC=200", "VERIF_WORK="+work, fmt.Sprintf("VERIF_SEED=%d", seed))
+			if race {
+				rl := filepath.Join(work, fmt.Sprintf("racelog-%d", i))
+				cmd.Env = append(cmd.Env, "VERIF_RACELOG="+rl, "GORACE=log_path="+rl+" halt_on_error=0 exitcode=0 atexit_sleep_ms=0 history_size=2")
+			}
 			var buf bytes.Buffer
 			cmd.Stdout, cmd.Stderr = &buf, &buf
 			err := cmd.Run()
